@@ -210,6 +210,35 @@ pub fn random_tb_pos(rng: &mut Rng64) -> Pos {
     }
 }
 
+/// Random position whose side to move has at most `max_moves` legal moves (and at least one):
+/// a lone king hemmed in, a single check evasion, or a blocked pawn endgame.
+pub fn random_forced(rng: &mut Rng64, max_moves: usize) -> Pos {
+    loop {
+        let p = match rng.below(4) {
+            0 | 1 => random_tb_pos(rng),
+            2 => {
+                // the heavy side has just moved: the bare king is to move
+                let mut q = random_heavy(rng);
+                let ms = q.legal_moves();
+                let m = *rng.pick(&ms);
+                q = q.make(m);
+                q
+            }
+            _ => {
+                let mut q = random_pawn_endgame(rng);
+                let ms = q.legal_moves();
+                let m = *rng.pick(&ms);
+                q = q.make(m);
+                q
+            }
+        };
+        let n = p.legal_moves().len();
+        if n >= 1 && n <= max_moves {
+            return p;
+        }
+    }
+}
+
 /// Random tablebase position in which the side to move mates in exactly `n` plies.
 pub fn tb_win_in(rng: &mut Rng64, tb: &Tb, n: u32) -> Pos {
     loop {
